@@ -1223,6 +1223,25 @@ def mon_C10_me(case):
                 out.append((i, f"C10 [me-banned:{what}] `{fw[0]} {what}` about {src} delivered on `me` to {sid} of {u} who is banned (granted {givens})"))
             elif fw[0] == "info" and not any(has(m, "R") for m in modes):
                 out.append((i, f"C10 [me-info-unread] receipt `{what}` about {src} relayed on `me` to {sid} of {u} whose permissions {modes} lack read"))
+        # (a') the list of contacts a user reads on `me` shows a contact online iff the contact table says so (and never without the
+        # user's own presence permission on `me`)
+        if w[0] == "meget" and len(w) > 3 and w[3] == "sub":
+            u = case.sess.get(w[1], {}).get("user")
+            m = ln.me.get(u)
+            for sid, f in ln.meframes:
+                if sid != w[1] or not f.startswith("meta me sub["):
+                    continue
+                if m is None or sid not in m["sess"]:
+                    continue            # not attached: the user's own subscription, no contacts
+                mine = m["users"].get(u)
+                pres = mine is not None and has(eff(mine["want"], mine["given"]), "P")
+                for e in f[len("meta me sub["):].rstrip("]").split(" "):
+                    name = e.split(":")[0] if not e.startswith("chn:") else ":".join(e.split(":")[:2])
+                    shown = ":on" in e[len(name):]
+                    told = m["contacts"].get(name, (False, False))[0]
+                    if shown != (told and pres):
+                        out.append((i, f"C10 [me-sub-online] {u} reads the contact {name} as {'online' if shown else 'offline'} on `me` although "
+                                       f"the last notification said {'online' if told else 'offline'}"))
         # (b)
         if faulted:
             continue
